@@ -31,7 +31,7 @@ def setup(spec):
     sim.gravity = spec.get("gravity", "none")
     sim.collision = spec.get("collision", "none")
     sim.boundary = spec["boundary"]
-    if spec["boundary"] != "none" or sim.gravity == "tree" or sim.collision == "tree":
+    if spec["boundary"] != "none" or sim.gravity == "tree" or sim.collision in ("tree", "linetree"):
         sim.configure_box(spec["rs"], *spec["n"])
     if spec["boundary"] == "shear":
         sim.ri_sei.OMEGA = spec.get("omega", 1.0)
@@ -773,7 +773,8 @@ def run_edges(spec):
         step("N=0"); step("N=0 again")
         add(0.0, 0.0, 0.0); step("N=1 at the box centre", 2)
         add(-0.25 * rs, 0.125 * rs, 0.0, vel); step("N=2", 2)
-        sim.remove(index=0, keep_sorted=False); expected.discard(sim.particles[0].hash.value if False else 1); step("remove -> N=1", 2)
+        h0 = sim.particles[0].hash.value      # (the tree update reorders the particle array)
+        sim.remove(index=0, keep_sorted=False); expected.discard(h0); step("remove -> N=1", 2)
         sim.remove(index=0, keep_sorted=False); expected.clear(); step("remove the last particle -> N=0", 2)
         if sim.N != 0:
             raise Fail("edges:particle_lost", "N=%d after removing every particle" % sim.N)
@@ -795,8 +796,11 @@ def run_edges(spec):
         verify("lattice added")
         step("lattice", 3)
         # ---- remove the only particle of a leaf and re-add a particle at the same place (before the tree is updated)
-        if sim.N >= 3:
-            i = rng.randrange(sim.N); q = sim.particles[i]; x, y, z, hq = q.x, q.y, q.z, q.hash.value
+        # (not for a particle exactly on the upper box border: the flagged resident (y = NaN) and the new particle then agree on every octant
+        #  = open finding tree:reinsert_on_cell_corner_unbounded_recursion, dedicated corner history)
+        cand = [i for i in range(sim.N) if all(abs(v) != h[a] for a, v in enumerate((sim.particles[i].x, sim.particles[i].y, sim.particles[i].z)))]
+        if sim.N >= 3 and cand:
+            i = rng.choice(cand); q = sim.particles[i]; x, y, z, hq = q.x, q.y, q.z, q.hash.value
             sim.remove(index=i, keep_sorted=False); expected.discard(hq)
             add(x, y, z)
             step("remove + re-add at the same place", 2)
